@@ -21,7 +21,7 @@ TRUSTED = ["what `series.dtype == object` / isinstance(dtype, CategoricalDtype/S
            "captured in the regenerated oracle table, not proved"]
 ASSUMPTIONS = []
 
-TEXT = ["object", "str", "string[python]", "string[pyarrow]", "arrow[string]", "arrow[large_string]", "category", "category-shuffled", "category-extra"]
+TEXT = ["object", "str", "string[python]", "string[pyarrow]", "arrow[string]", "arrow[large_string]", "arrow[dictionary]", "category", "category-shuffled", "category-extra"]
 NUMS = ["int8", "int16", "int32", "int64", "uint8", "uint16", "uint32", "uint64", "float32", "float64", "bool", "Int64", "Float64", "boolean"]
 FORMS = ["A", "A + a", "A:a", "A:B", "0 + A", "0 + A:a", "a + B"]
 
@@ -67,6 +67,8 @@ def run(ctx: Ctx):
         def text_series(vals, decl=None):
             if t.startswith("category"):
                 return pd.Series(pd.Categorical(vals, categories=decl or sorted(set(vals))))
+            if t == "arrow[dictionary]":     # a dictionary-encoded Arrow column held by pandas (recorded finding: not recognised as categorical)
+                return pd.Series(pa.array(vals).dictionary_encode().to_pandas(types_mapper=pd.ArrowDtype))
             if t.startswith("arrow["):       # pandas.ArrowDtype text columns (what reading parquet/csv with the pyarrow backend gives)
                 return pd.Series(vals, dtype=pd.ArrowDtype(pa.string() if t == "arrow[string]" else pa.large_string()))
             return pd.Series(vals, dtype=t)
@@ -76,6 +78,7 @@ def run(ctx: Ctx):
         except Exception:
             continue
         rp = {"kind": "dtypes", "text_dtype": t, "numeric_dtype": nd, "formula": f, "output": out, "A": Avals, "declared": declared}
+        ktags = ["C08-arrow-dictionary-dtype"] if t == "arrow[dictionary]" else []
         routes = {"pandas": lambda: model_matrix(f, df, output=out),
                   "narwhals/pandas": lambda: NarwhalsMaterializer(df).get_model_matrix(f, output=out)}
         if t != "string[python]":
@@ -88,19 +91,21 @@ def run(ctx: Ctx):
             try:
                 mm = fn()
             except Exception as e:
-                ctx.fail(f"{route}: {type(e).__name__} for {f!r} with text dtype {t} / numeric dtype {nd}: {e}", {**rp, "route": route})
+                ctx.fail(f"{route}: {type(e).__name__} for {f!r} with text dtype {t} / numeric dtype {nd}: {e}", {**rp, "route": route}, ktags)
                 continue
             raw = mm.toarray() if out == "sparse" else (mm.to_numpy() if hasattr(mm, "to_numpy") else np.asarray(mm))
             raw = np.asarray(raw)
             if not (np.issubdtype(raw.dtype, np.number) or raw.dtype == bool):
                 ok = all(isinstance(x, (int, float, np.integer, np.floating, bool, np.bool_)) for x in raw.ravel())
                 if not ok:
-                    ctx.fail(f"{route}: the model matrix for {f!r} contains non-numeric cells (dtype {raw.dtype}): {raw.tolist()[:2]}", {**rp, "route": route})
+                    ctx.fail(f"{route}: the model matrix for {f!r} contains non-numeric cells (dtype {raw.dtype}): {raw.tolist()[:2]}", {**rp, "route": route}, ktags)
                     continue
             arr = np.asarray(raw, dtype=float)
             names = list(mm.model_spec.column_names)
             # level order
             want_levels = declared if t.startswith("category") else sorted(set(Avals))
+            if t == "arrow[dictionary]":
+                want_levels = list(dict.fromkeys(Avals))          # the dictionary of the column: its values in order of first appearance
             Acols = [c for c in names if c.startswith("A[") and ":" not in c]
             if f in ("A", "A + a", "0 + A"):
                 lv = [c[2:-1].replace("T.", "") for c in Acols]
